@@ -170,6 +170,8 @@ func (flex *FlexEncoder03) encodeFlexFecPacket(fecPacketIndex uint32, mediaBaseS
 			tmpMediaPacketBuf = make([]byte, packetSize)
 		}
 
+		// MarshalTo only writes the last padding octet, the pooled buffer may hold stale bytes.
+		clear(tmpMediaPacketBuf[:packetSize])
 		n, err := mediaPacket.MarshalTo(tmpMediaPacketBuf[:packetSize])
 		if n == 0 || err != nil {
 			return rtp.Packet{}, false
